@@ -163,6 +163,11 @@ class Worker:
         for c in case.cmds:
             if c.startswith('c '):
                 f = cmd_fn(c); r['ops'][f] = r['ops'].get(f, 0) + 1
+            elif c.startswith(('pf ', 'sf ', 'export ', 'import ')):
+                t = c.split(None, 2); f = {'pf': 'gmp_' + t[1], 'sf': 'gmp_' + t[1], 'export': 'mpz_export', 'import': 'mpz_import'}[t[0]]
+                r['ops'][f] = r['ops'].get(f, 0) + 1
+        for f, k in case.dyn.get('ops', {}).items():       # calls made inside the driver (kernel sweeps)
+            r['ops'][f] = r['ops'].get(f, 0) + k
         if len(r['samples']) < 3 or (len(r['samples']) < 8 and self.rng.random() < 0.002):
             r['samples'].append(jsonable(case.spec, abbreviate=True))
 
